@@ -32,6 +32,11 @@ CLAIMED = {
         "Decides that each detected feature flag is set only under the cpuid bit that implies it, that AVX flags also require XSAVE/OSXSAVE and the XCR0 ymm check, that a backend reports itself executable only under its base ISA flags and every other target object is created non-executable, that mmx/sse/avx are registered in increasing order with only executable targets replacing the default, that default flags carry only detected feature bits, and that the environment override is the documented variable, is freed, and cannot return a non-executable target. Behaviour per concrete CPU is not executed.",
         "Trusted: cpuid bit positions from the Intel SDM / AMD APM (table in rules/c19.py); this sandbox's build configuration (HAVE_AMD64).",
         "DESIGN.md §4 C19"),
+    "C06": (
+        "acquire/release typestate over the CFG with failed-acquisition edges pruned (R-PAIR), first-test-is-the-right-sentinel rule (R-SENT), must-pass-through for the init probe with constant tracking of boolean locals, per-path call counting in the executor dispatch",
+        "Decides that the dual-map allocator releases file name, descriptor and first mapping on every failure exit, that every OS/allocator result is first compared with its own failure sentinel, that the acquisition chain gives up only after all methods, that a failed init probe always forces backup+emulate, and that executor dispatch calls exactly one implementation once on every path. Equality of fallback results with emulation is not decided.",
+        "Trusted: clang CFG; POSIX failure sentinels (mkstemp -1, ftruncate <0, mmap MAP_FAILED). OOM exits of realloc are out of scope.",
+        "DESIGN.md §4 C06"),
 }
 
 NOT_YET = "check under construction in this round; not claimed until its rules are exact on the current tree"
